@@ -58,3 +58,28 @@ def r_unitdir(idx, rep, rule="R-UNITDIR"):
     ok = ok and bool(rets) and u(rets[-1].value).replace(" ", "") in ("0.5*(%s+%s)" % (ps[1], ps[2]), "(%s+%s)/2" % (ps[1], ps[2]), "(%s+%s)*0.5" % (ps[1], ps[2]))
     rep.check(ok, rule, c.key + "|same weights on both pre-image arrays, midpoint", c.where,
               "the contact position must be 0.5 * (w . v1 + w . v2) with one weight vector w")
+
+
+def r_portaldir(idx, rep, rule="R-PORTALDIR"):
+    """mpr._portal_reach_tolerance compares projections onto the portal direction with a LENGTH tolerance, so the direction it is handed
+    must be a unit vector: _portal_direction (and every other producer of that argument) returns norm_vector(.)"""
+    rep.rule(rule, "the direction handed to _portal_reach_tolerance (a length tolerance on projections) is unit by construction: it comes from "
+                   "_portal_direction / norm_vector", floor=2)
+    sg = Signs(idx)
+    m = idx.module(M)
+    pd = idx.func(M + "::_portal_direction")
+    rets = [st for st in iter_stmts(pd.node.body) if isinstance(st, ast.Return)]
+    s = "norm_vector(.)" if rets and all(isinstance(r.value, ast.Call) and (call_name(r.value) or "").split(".")[-1] == "norm_vector" for r in rets) else "not normalised"
+    rep.check(s == "norm_vector(.)", rule, pd.key + "|returns a unit vector", pd.where,
+              "_portal_direction returns kind %s, not norm_vector(.): the stopping test `min((v4 - v_i) . dir) < mpr_tolerance` is then scaled by the portal's area, "
+              "small shapes stop refining early (too small a depth), large ones late" % (s,), str(s))
+    for f in m.functions.values():
+        for c in calls(f.node):
+            if (call_name(c) or "").endswith("_portal_reach_tolerance") and len(c.args) >= 3:
+                a = c.args[2]
+                ok = False
+                if isinstance(a, ast.Name):
+                    defs = [st.value for st in ast.walk(f.node) if isinstance(st, ast.Assign) and len(st.targets) == 1 and u(st.targets[0]) == a.id]
+                    ok = bool(defs) and all(isinstance(d, ast.Call) and (call_name(d) or "").split(".")[-1] in ("_portal_direction", "norm_vector") for d in defs)
+                rep.check(ok, rule, "%s|direction of the reach test" % f.key, "%s:%d" % (m.relpath, c.lineno),
+                          "the direction `%s` handed to _portal_reach_tolerance is not produced by _portal_direction / norm_vector on every definition" % u(a), "unit")
